@@ -729,7 +729,7 @@ Definition rung_bounds (l : list (rung_test * rung_fmt)) : list Z :=
 Definition window : list Z := map (fun i => Z.of_nat i - 1100) (seq 0 2201).
 Definition in_dom (n : Z) : bool := (0 <=? n) && (n <? 2 ^ 63).
 Definition window_ok (f : Z -> list byte) (w : nat) (c : Z) : bool :=
-  forallb (fun d => negb (in_dom (c + d)) || (length (f (c + d)) <=? w)%nat) window.
+  forallb (fun d => negb (in_dom (c + d)) || (length (f (c + d)%Z) <=? w)%nat) window.
 
 Definition fmt_same (a b : rung_fmt) : bool :=
   match a, b with
